@@ -97,7 +97,7 @@ def run_hist(seed, n):
                     try:
                         await asyncio.wait_for(xknx.join(), 600)
                         ev.append({"ev": "joined", "id": 0, "kind": "", "t": ms(loop.time())})
-                    except Exception as ex:  # noqa: BLE001 - join() must return: a timeout or an escaping error is recorded
+                    except (Exception, asyncio.CancelledError) as ex:  # noqa: BLE001 - join() must return: a timeout or an escaping error is recorded
                         ev.append({"ev": "join_failed:" + type(ex).__name__, "id": 0, "kind": "", "t": ms(loop.time())})
                         return
                 else:
@@ -105,7 +105,7 @@ def run_hist(seed, n):
             try:
                 await asyncio.wait_for(xknx.telegram_queue.stop(), 600)
                 ev.append({"ev": "stopped", "id": 0, "kind": "", "t": ms(loop.time())})
-            except Exception as ex:  # noqa: BLE001
+            except (Exception, asyncio.CancelledError) as ex:  # noqa: BLE001 - stop() must return normally
                 ev.append({"ev": "stop_failed:" + type(ex).__name__, "id": 0, "kind": "", "t": ms(loop.time())})
             xknx.task_registry.stop()
             xknx.started.clear()
